@@ -38,11 +38,19 @@ def named(rep, cfg, loc):
         why = Tm.show(got, maxdepth=6)
         if got.op == "proj" and got.args[0].op == "fold":
             it, item, accs, inits, nexts = got.args[0].args
-            zipped = it.op == "zip" and it.args[0] is mk("param", "scalars") and it.args[1] is mk("param", "points")
-            init_ok = G.den(inits[0]) is mk("gzero")
-            sc, pt = field(item, "0"), field(item, "1")
             nx = G.den(nexts[0])
-            next_ok = nx is mk("gadd", accs[0], mk("gsmul", pt, sc)) or nx is mk("gadd", mk("gsmul", pt, sc), accs[0])
+            if it.op == "seq_map_t":
+                # zip(..).map(|(s, p)| s * p).sum(): the products are formed first, the fold adds them up
+                mitem, body, src = it.args
+                zipped = src.op == "zip" and src.args[0] is mk("param", "scalars") and src.args[1] is mk("param", "points")
+                sc, pt = field(mitem, "0"), field(mitem, "1")
+                prod_ok = G.den(body) is mk("gsmul", pt, sc)
+                next_ok = prod_ok and (nx is mk("gadd", accs[0], item) or nx is mk("gadd", item, accs[0]))
+            else:
+                zipped = it.op == "zip" and it.args[0] is mk("param", "scalars") and it.args[1] is mk("param", "points")
+                sc, pt = field(item, "0"), field(item, "1")
+                next_ok = nx is mk("gadd", accs[0], mk("gsmul", pt, sc)) or nx is mk("gadd", mk("gsmul", pt, sc), accs[0])
+            init_ok = G.den(inits[0]) is mk("gzero")
             ok = zipped and init_ok and next_ok
             why = "iterator zip(scalars, points): %s, starts at identity: %s, step acc + scalar*point: %s (%s)" % (zipped, init_ok, next_ok, Tm.show(nx, maxdepth=5))
         rep.ob("FWD/%s/vartime_multiscalar_mul" % cfg.name, ok, "multiscalar multiplication must be FOLD(zip(scalars, points), identity, acc + s*P): %s" % why, where=cfg.where(p))
